@@ -10,6 +10,12 @@ CONSTANTS
   LegacyPullZero = FALSE
   LegacyTrimRaw = TRUE
   GenDepth = 0
+  Srvs = {1}
+  Ots <- OtsOne
+  Coes <- CoesOne
+  SharedContextTable = FALSE
+  ExpireSessions = FALSE
+  RandArgs = FALSE
   Cover = FALSE
 INVARIANT ImplRefinesReq
 INVARIANT MappingHolds
